@@ -526,3 +526,30 @@ package lib
 //@   ensures @C09: !held(&r.m) && rheld(&r.m) == 0
 //@   ensures result >= 0
 //@   assigns rheld(&r.m), acq(&r.m)
+
+// ---------------- C09: overload and shutdown of the ingest pipeline ----------------
+//@ import context "context"
+// "after a stop request the pipeline winds down in bounded time whether or not registrations keep arriving": neither the
+// distributor nor a worker may block in a channel operation that the stop request cannot interrupt - every blocking
+// receive / send / select has an arm receiving from ctx.Done() ("cancellable ctx": one obligation per blocking
+// channel operation). "when all workers are busy, excess registrations are dropped and counted instead of blocking the
+// receiver": the hand-over to the workers is a non-blocking select (a blocking send would be reported here too).
+// ("checks structure": these two contracts are about the shape of the functions only; what the workers do with a
+// message is under contract on parseRegMessage / ingestRegistration)
+//@ func (rm *RegistrationManager) HandleRegUpdates(ctx context.Context, regChan <-chan interface{}, parentWG *sync.WaitGroup)
+//@   cancellable @C09: ctx
+//@   ensures @C09: true
+//@   checks structure
+//@ loop 1:
+//@   invariant true
+//@ loop 2:
+//@   invariant true
+
+//@ func (rm *RegistrationManager) startIngestThread(ctx context.Context, regChan <-chan interface{}, wg *sync.WaitGroup)
+//@   cancellable @C09: ctx
+//@   ensures @C09: true
+//@   checks structure
+//@ loop 1:
+//@   invariant true
+//@ loop 2:
+//@   invariant true
